@@ -271,6 +271,7 @@ type World struct {
 	DeadP       time.Duration // virtual deadline of the peer timer
 	Restarts    int
 	Delivered   []string // ClOrdID (11) of every application message handed to FromApp, in order
+	Loop        *LoopCtl // non-nil: run-loop mode
 }
 
 const (
@@ -594,6 +595,34 @@ func hasTag(f []fixscan.Field, t int) bool {
 	return false
 }
 
+// LoopCtl switches a World to run-loop mode: events are injected through the real channels of a
+// running session.run() goroutine and Barrier() (testing/synctest.Wait in the conformance test) waits
+// until the loop has processed them. Used only to validate the synchronous decomposition.
+type LoopCtl struct {
+	Barrier func()
+	Sleep   func(time.Duration)
+	started bool
+}
+
+// StartLoop starts the real run() goroutine with real EventTimers (observed, not virtual).
+func (w *World) StartLoop(l *LoopCtl) {
+	w.Loop = l
+	w.VS.SetTimeouts(time.Hour, time.Hour)
+	go w.VS.Run()
+	l.Sleep(1500 * time.Millisecond) // run() aligns itself to the next full second first
+	l.Barrier()
+	w.VS.ObserveTimers(
+		func(d time.Duration) {
+			w.ArmS, w.DurS, w.DeadS = true, d, w.VNow+d
+			w.log = append(w.log, Obs{K: "armS", D: d})
+		},
+		func(d time.Duration) {
+			w.ArmP, w.DurP, w.DeadP = true, d, w.VNow+d
+			w.log = append(w.log, Obs{K: "armP", D: d})
+		})
+	l.started = true
+}
+
 // Event is one run-loop iteration's trigger.
 type Event struct {
 	K    string // connect disconnect in to send flush stop
@@ -654,6 +683,10 @@ func (w *World) Apply(e *Event) (obs []Obs) {
 		w.drain()
 		obs = append([]Obs{}, w.log[start:]...)
 	}()
+	if w.Loop != nil {
+		w.applyLoop(e)
+		return
+	}
 	switch e.K {
 	case "connect":
 		w.out = make(chan []byte, 512)
@@ -718,6 +751,81 @@ func (w *World) Apply(e *Event) (obs []Obs) {
 		}
 	}
 	return
+}
+
+// applyLoop injects the event into the running loop and waits for it to be processed.
+func (w *World) applyLoop(e *Event) {
+	l := w.Loop
+	switch e.K {
+	case "connect":
+		w.out = make(chan []byte, 512)
+		w.in = make(chan quickfix.VerifFixIn, 1)
+		w.Conn++
+		w.OutOpen = true
+		done := make(chan error, 1)
+		in, out := w.in, w.out
+		go func() { done <- w.VS.ConnectAsync(in, out) }()
+		l.Barrier()
+		select {
+		case err := <-done:
+			if err != nil {
+				w.log = append(w.log, Obs{K: "connecterr", Txt: err.Error()})
+			}
+		default:
+			w.log = append(w.log, Obs{K: "panic", Txt: "connect not processed by the run loop"})
+		}
+	case "disconnect":
+		close(w.in)
+		l.Barrier()
+	case "in":
+		b := w.Materialise(e.In)
+		w.LastIn, _ = fixscan.Scan(b)
+		w.LastInT = w.T()
+		w.in <- quickfix.VerifMkIn(b, w.Now())
+		l.Barrier()
+	case "to":
+		if w.Cfg.Timed {
+			// the real EventTimer has fired by itself during the tick that made it due (see "tick")
+			l.Barrier()
+			break
+		}
+		switch e.To {
+		case quickfix.VerifNeedHeartbeat:
+			w.ArmS = false
+		case quickfix.VerifPeerTimeout:
+			w.ArmP = false
+		}
+		w.VS.InjectSessionEvent(e.To)
+		l.Barrier()
+	case "send":
+		m := quickfix.NewMessage()
+		m.Header.SetString(35, "D")
+		for _, f := range e.Send {
+			m.Body.SetString(quickfix.Tag(f.Tag), f.Value)
+		}
+		if err := w.VS.QueueForSend(m); err != nil {
+			w.log = append(w.log, Obs{K: "senderr", Txt: err.Error()})
+		}
+		l.Barrier() // the loop consumes the flush token on its own
+	case "flush":
+		l.Barrier()
+	case "stop":
+		go w.VS.StopAsync()
+		l.Barrier()
+	case "tick":
+		u := w.TickUnit()
+		w.VNow += u
+		// a timer that comes due during this sleep fires (one shot): book it as disarmed first, so that a
+		// re-arming during the handler is what remains recorded
+		if w.ArmS && w.DeadS <= w.VNow {
+			w.ArmS = false
+		}
+		if w.ArmP && w.DeadP <= w.VNow {
+			w.ArmP = false
+		}
+		l.Sleep(u)
+		l.Barrier()
+	}
 }
 
 // TickUnit is one fifth of the session's current heartbeat interval.
